@@ -3,7 +3,8 @@
 //!
 //!   EPOLL w=<workers> failadd=<i,j|-> plan=<step>,<step>,…
 //!   steps: o<i> open connection i | s<i>:<hex> send (one complete request) | r<i> read one response |
-//!          x<i> close connection i | h<i> half-close | w short pause (3 ms) | z long pause (40 ms)
+//!          x<i> close connection i | h<i> half-close | w short pause (3 ms) | z long pause (40 ms) |
+//!          y wait until a `/slow` handler has started since the previous y (its request is off the socket)
 //! Output: `E tr=<conn transcripts '/'-separated> ev=<raw trace> closes=<peerport:count,…> ports=<port per conn>
 //!          live_before_stop=<records> returned=<0|1>`
 use crate::dom_conn::read_response;
@@ -38,7 +39,13 @@ pub fn epoll(arg: &str) -> String {
         let body = ctx.body().vec()?;
         res.ok(Headers::empty_nodate(), body)
     });
-    b.route(Method::Get, "/slow/:ms", |ctx, res| {
+    let slow_started: Arc<std::sync::Mutex<std::collections::HashMap<u16, usize>>> = Arc::new(Default::default());
+    let slow2 = Arc::clone(&slow_started);
+    b.route(Method::Get, "/slow/:ms", move |ctx, res| {
+        // the request has been read off the socket: from now on a further request of this connection arrives separately
+        if let Ok(peer) = ctx.get_stream().peer_addr() {
+            *slow2.lock().unwrap().entry(peer.port()).or_insert(0) += 1;
+        }
         let ms: u64 = ctx.params.get("ms").and_then(|s| s.parse().ok()).unwrap_or(0);
         std::thread::sleep(Duration::from_millis(ms));
         res.ok(Headers::empty_nodate(), "slow")
@@ -83,6 +90,7 @@ pub fn epoll(arg: &str) -> String {
     let mut trs: Vec<Vec<String>> = Vec::new();
     let mut ports: Vec<u16> = Vec::new();
     let idx = |s: &str| -> usize { s.parse().unwrap_or(0) };
+    let mut seen_slow: std::collections::HashMap<u16, usize> = Default::default();
     for step in plan.split(',') {
         if step.is_empty() {
             continue;
@@ -148,6 +156,21 @@ pub fn epoll(arg: &str) -> String {
                 }
             }
             "w" => std::thread::sleep(Duration::from_millis(3)),
+            "y" => {
+                // y<i>: wait until one more `/slow` handler of connection i has started than at its previous `y`
+                let i = idx(rest);
+                let port = ports.get(i).copied().unwrap_or(0);
+                let before = seen_slow.get(&port).copied().unwrap_or(0);
+                let t = Instant::now();
+                loop {
+                    let now = slow_started.lock().unwrap().get(&port).copied().unwrap_or(0);
+                    if now > before || t.elapsed() > Duration::from_millis(400) {
+                        seen_slow.insert(port, now);
+                        break;
+                    }
+                    std::thread::sleep(Duration::from_micros(300));
+                }
+            }
             "z" => std::thread::sleep(Duration::from_millis(40)),
             _ => {}
         }
